@@ -1,6 +1,7 @@
 package main
 
 import (
+	"bytes"
 	"encoding/json"
 	"fmt"
 	"strings"
@@ -811,14 +812,23 @@ func finishMerge(ctx *core.Ctx) {
 func registerMerge(id string, run func(ctx *core.Ctx, tier string), replayLegacy bool) {
 	checks[id] = &check{Engine: "mergex", Run: func(ctx *core.Ctx, tier string) { run(ctx, tier); finishMerge(ctx) },
 		Replay: func(ctx *core.Ctx, raw json.RawMessage) { mergeReplay(ctx, id, raw) },
-		Budget: map[string]time.Duration{"quick": 100 * time.Second, "thorough": 25 * time.Minute}}
+		Budget: map[string]time.Duration{"quick": 150 * time.Second, "thorough": 25 * time.Minute}}
 }
 
 // mergeReplay re-judges one recorded call.
 func mergeReplay(ctx *core.Ctx, id string, raw json.RawMessage) {
+	if bytes.Contains(raw, []byte(`"buffer_reuse"`)) {
+		runBufferReuse(ctx, id) // the whole phase: a history is three calls on one buffer
+		return
+	}
 	var c MergeCase
 	if err := json.Unmarshal(raw, &c); err != nil {
 		panic(err)
+	}
+	if strings.HasPrefix(c.Func, "codec") {
+		m := &mergeRun{id: id, ctx: ctx}
+		m.judgeCodec([]byte(c.Args[0]))
+		return
 	}
 	m := &mergeRun{id: id, legacy: c.Lib == "v4", ctx: ctx}
 	parse := func(s string) *rj.Value {
